@@ -42,8 +42,25 @@ class JsonResource(Resource):
         else:
             self.to_obj(d, first=True)
         self.uri.close_stream()
+        bidirectional = []
         for inst, refs in list(self._load_href.items()):
-            self.process_inst(inst, refs)
+            self.process_inst(inst, refs, document_order=bidirectional)
+        # the other end may have filled a collection before its own turn came:
+        # put the elements back in the order the document gives them
+        for inst, feature, document_order in bidirectional:
+            collection = inst.eGet(feature)
+            if len(document_order) != len(collection) \
+                    or all(x is y for x, y in zip(collection, document_order)) \
+                    or {id(x) for x in collection} \
+                    != {id(x) for x in document_order}:
+                continue
+            if hasattr(collection, 'map'):
+                collection.items[:] = document_order
+                collection.map.clear()
+                collection.map.update((x, i)
+                                      for i, x in enumerate(document_order))
+            else:
+                list.__setitem__(collection, slice(None), document_order)
         self._load_href.clear()
         self._find_feature.cache_clear()
         self.cache_enabled = False
@@ -244,7 +261,8 @@ class JsonResource(Resource):
             self._load_href[inst] = ereferences
         return inst
 
-    def process_inst(self, inst, features, owning_feature=None):
+    def process_inst(self, inst, features, owning_feature=None,
+                     document_order=None):
         for feature, value in features:
             if value is None:
                 inst.eSet(feature, None)
@@ -261,7 +279,11 @@ class JsonResource(Resource):
                     elements = (x for x in elements if x is not None)
                 else:
                     elements = (feature._eType.from_string(x) for x in value)
-                inst.eGet(feature).extend(list(elements))
+                elements = list(elements)
+                inst.eGet(feature).extend(elements)
+                if document_order is not None and feature.is_reference \
+                        and feature.eOpposite:
+                    document_order.append((inst, feature, elements))
             elif isinstance(value, str):
                 inst.eSet(feature, feature._eType.from_string(value))
             else:
